@@ -152,6 +152,45 @@ def run_call_model(ctx, res, seed):
             res.failures.append({'kind': 'pool-result-differs-from-serial', 'input': {**info, 'model': 'mixed-fidelity', 'alphas': alphas,
                                                                                      'pool': type(ex).__name__}})
         res.hit('mixed-fidelity-pool')
+    # failed samples inside a mixed-fidelity batch: the error RECORD (inputs, model fidelity of the failed sample) must be the
+    # serial one under every schedule — the record is what is stored against the failed point (C14) and used to re-run it
+    compf = make_comp(M.mf_failing_model, mf=True)
+    xf = {k: v.copy() for k, v in x.items()}
+    bad = sorted(rng.sample(range(N - 1), min(2, N - 1)))          # never the last sample
+    for i in bad:
+        xf['x0'][i] = 0.85 + 0.1 * rng.random()
+    for i in range(N):
+        if i not in bad:
+            xf['x0'][i] = min(xf['x0'][i], 0.7)
+    alph = list(alphas)
+    for i in bad:
+        if alph[i] == alph[N - 1]:
+            alph[i] = ((alph[i][0] + 1) % 3,)
+
+    def records(ds):
+        return {int(i): (tuple(sorted((k, float(np.atleast_1d(v)[0])) for k, v in r['inputs'].items())),
+                         tuple(int(t) for t in np.atleast_1d(r['model_kwargs'].get('model_fidelity', ()))))
+                for i, r in ds.get('errors', {}).items()}
+    reff = compf.call_model(dict(xf), model_fidelity=list(alph))
+    if sorted(records(reff)) != bad or any(records(reff)[i][1] != tuple(alph[i]) for i in bad):
+        res.failures.append({'kind': 'serial-error-record-does-not-name-the-failed-sample', 'input': {**info, 'alphas': alph, 'failing': bad},
+                             'observed': {str(k): list(v[1]) for k, v in records(reff).items()}})
+    for perm in orders[:3]:
+        ex = ScheduledExecutor(lambda n, perm=perm: perm if n == len(perm) else list(range(n)))
+        gotf = compf.call_model(dict(xf), model_fidelity=list(alph), executor=ex)
+        if not ds_equal(reff, gotf) or records(gotf) != records(reff):
+            res.failures.append({'kind': 'executor-error-records-differ-from-serial',
+                                 'input': {**info, 'model': 'mixed-fidelity-failing', 'alphas': alph, 'failing': bad, 'completion_order': list(perm)},
+                                 'observed': {str(k): list(v[1]) for k, v in records(gotf).items()},
+                                 'expected': {str(k): list(v[1]) for k, v in records(reff).items()}})
+        res.hit('mixed-fidelity-error-records')
+    with ThreadPoolExecutor(max_workers=2) as ex:
+        gotf = compf.call_model(dict(xf), model_fidelity=list(alph), executor=ex, delay_scale=0.002)
+    if not ds_equal(reff, gotf) or records(gotf) != records(reff):
+        res.failures.append({'kind': 'pool-error-records-differ-from-serial',
+                             'input': {**info, 'model': 'mixed-fidelity-failing', 'alphas': alph, 'failing': bad, 'pool': 'ThreadPoolExecutor'},
+                             'observed': {str(k): list(v[1]) for k, v in records(gotf).items()},
+                             'expected': {str(k): list(v[1]) for k, v in records(reff).items()}})
     # three execution paths / two signatures agree
     ref = make_comp(M.slow_model).call_model(dict(x))
     vec = make_comp(M.slow_model_vec, vectorized=True).call_model(dict(x))
